@@ -56,7 +56,7 @@ theorem C14_sorted_set_laws (l : List Nat) (c : Nat) (hs : strictlySorted l = tr
     strictlySorted (l.filter (· != c)) = true ∧
     (c ∈ l → insertSorted (l.filter (· != c)) c = l) := by
   rw [strictlySorted_iff] at hs
-  refine ⟨mem_insertSorted l c, (strictlySorted_iff _).2 (insertSorted_sorted hs c), insertSorted_of_mem hs,
+  refine ⟨mem_insertSorted_edges l c, (strictlySorted_iff _).2 (insertSorted_sorted hs c), insertSorted_of_mem hs,
     fun h => ⟨insertSorted_ne_of_not_mem h, filter_insertSorted h⟩, (strictlySorted_iff _).2 (filter_ne_sorted hs c),
     insertSorted_filter hs⟩
 
